@@ -80,7 +80,7 @@ class Gen:
     def __init__(self, rng, profile="c05", max_stmts=10):
         self.rng = rng
         self.profile = profile
-        self.loose = 0.25 if profile == "c02" else 0.0
+        self.loose = 0.12 if profile == "c02" else 0.0
         self.max_stmts = max_stmts
         self.next_id = 0
         self.vars = []          # (id, ty) visible variables, innermost last
@@ -218,7 +218,8 @@ class Gen:
         if self.loose:
             ta, tb = r.choice([NAT, INT, INT, FLOAT]), r.choice([NAT, NAT, INT])
             a = self.expr(ta, d - 1)[0]
-            b = lit(0, r.randint(0, 3)) if r.random() < 0.5 else self.expr(tb, 0)[0]
+            # exponents stay small (a literal): a huge power would only test Python's bignum speed
+            b = lit(0, r.randint(0, 3)) if r.random() < 0.6 else nat(r.choice([-3, -2, -1, 5, 11]))
             return [E_BIN, 6, a, b], NAT
         return [E_BIN, 6, self.expr(NAT, d - 1)[0], lit(0, r.randint(0, 3))], NAT
 
